@@ -24,7 +24,7 @@ PROP = dict(
          "operator): all 15x15 operator pairs x L in {2, 2.5, 0, 9223372036854775808} x {plain, parenthesised, with newlines, as call "
          "arguments}, three-operator chains with a rotating third operator, and evaluated int/float instances; each compared with "
          "the variable form under literal<->variable substitution, with an independent reference parser in Rust (documented table, `-` "
-         "always a prefix operator of level 6) and with the model; the reference parser is also run on every other case. Every case is also run through the Lean Pratt model on the token kinds the real lexer "
+         "always a prefix operator of level 6) and with the model; the reference parser is also run on every other case; (6) continuation-line layouts (a line break, comment or blank line after binary/prefix operators, `(`, `,`, `[`) of 750 quick / 10000 thorough typed trees, evaluated as `let r =<nl>…` and match-arm bodies, and of a sixth of the untyped trees; (7) fixed probes: D85 (5 parse, 4 program), D111 (4), seven operand forms outside the model (named arguments, leading-dot variants, lambdas) against fixed expected trees. Every case is also run through the Lean Pratt model on the token kinds the real lexer "
          "produced. distinct = distinct token lists; non-trivial = at least two operator tokens, or the answer is not `ok`",
     nontrivial=lambda req, imp: sum(1 for w in req.split()[1:] if w in _OPS) >= 2 or not imp.startswith("ok"),
     trusted_base=COMMON_TB + [
@@ -43,13 +43,19 @@ PROP = dict(
     ],
     design_ref="DESIGN.md §6 C31",
     level_text="Theorems about a token-level Lean model of parse_expr_bp/parse_expr_term/parse_delimited_list (Abra.Pratt): the "
-               "parser terminates on every token list (fuel bound proved), and for every expression tree parse(printMinimal t) = t "
-               "where printMinimal parenthesises by the documented table only; atoms (literal vs variable) never influence grouping. "
+               "parser terminates on every token list (fuel bound proved), and for every well-formed expression tree (WF: integer literals fit i64, "
+               "tuples have >= 2 components) parse(printMinimal t) = t where printMinimal parenthesises by the documented table only; on such "
+               "printed trees substituting literals by variables (or back) gives the same tree under the same substitution; on every token "
+               "list the code yields the reference parser's (`-` always a prefix operator) tree whenever the reference yields one; line breaks "
+               "are skipped exactly at operand starts. "
                "Tied to /repo on every run by parsing printed random trees with the real lexer+parser, comparing with the tree and "
                "with the model, and evaluating them in the real VM against a reference evaluator on the tree.",
-    level_note="The model follows the parser after the fix of D11 (46f8617: `-<literal>` stays a literal only when no tighter operator "
-               "follows); the pre-fix treatment is kept as FoldMode.always with a proved counterexample. Step from parse.rs to "
-               "Abra.Pratt is checked by correspondence, not proved.",
+    level_note="The model follows the parser after the fixes of D11 (46f8617: `-<literal>` stays a literal only when no tighter operator "
+               "follows) and D85 (7fe8312: newlines are skipped before the prefix-operator test); the pre-D11 treatment is kept as "
+               "FoldMode.always with a proved counterexample. Literal/variable uniformity in arbitrary (unparenthesised) context is not one "
+               "theorem: it follows from C31_code_extends_reference (one direction only; the converse is not proved) plus "
+               "C31_reference_atom_blind, and is checked exhaustively for `a op1 -L op2 c` by the correspondence. No layout-independence theorem "
+               "for whole printed trees with inner line breaks. Step from parse.rs to Abra.Pratt is checked by correspondence, not proved.",
     technique="Lean 4 theorems (mutual structural induction over trees, fuel monotonicity) over a hand-written Pratt model + differential correspondence against the real parser and VM",
     timeout=3000,
 )
